@@ -6,6 +6,7 @@ from ..core.absint import Interp, alternatives, result_alternatives, pretty
 from ..core.analysis import Analysis, facts
 from ..core.cfg import decompose_guard
 from ..core.forms import (NotPolynomial, Poly, Rat, canon, expand, srcinfo, to_rat)
+from .c06 import collect
 from ..core.pyrepo import Repo, calls_in, dotted, norm_stmt
 from ..core.report import AnalysisError
 from ..oracles import linux as O
@@ -113,6 +114,35 @@ def run(ctx):
                 and isinstance(st.targets[0], ast.Name)]
     ctx.require(flen_var, "disk_io_counters: the field count of a diskstats line is no "
                 "longer taken (len(fields))")
+    # every record is built from ITS line only: nothing yielded inside the per-line
+    # loop may still hold the value of a previous line (a layout branch that does
+    # not set a counter must not inherit it from the line before)
+    from ..core.analysis import stale_in_loop
+    nrec = 0
+    for g_ in [f_ for f_ in repo.all_funcs("_pslinux")
+               if f_.node in scope or (f_.parent is not None and f_.parent.node in scope)]:
+        gcfg = None
+        for lp in [x_ for x_ in ast.walk(g_.node) if isinstance(x_, ast.For)]:
+            for st_ in [y_ for b_ in lp.body for y_ in ast.walk(b_)
+                        if isinstance(y_, ast.Expr) and isinstance(y_.value, ast.Yield)]:
+                if any(isinstance(z_, ast.For) and z_ is not lp
+                       and any(w_ is st_ for w_ in ast.walk(z_))
+                       for b_ in lp.body for z_ in ast.walk(b_)):
+                    continue            # belongs to an inner loop
+                gcfg = gcfg or A.cfg(g_)
+                nrec += 1
+                stale = stale_in_loop(gcfg, lp, st_, g_.node)
+                key = f"per-line-state:{g_.qual}"
+                if stale:
+                    ctx.fail("C09.R2", key, g_.file, st_.lineno, g_.qual,
+                             f"the record yielded for a line can carry {stale} over from the "
+                             f"PREVIOUS line: on some path through the loop body they are not "
+                             f"assigned before the yield (a device whose layout lacks these "
+                             f"counters reports its neighbour's)")
+                else:
+                    ctx.ok("C09.R2", key, nontrivial=True,
+                           sample="every yielded name is assigned on every path of the iteration")
+    ctx.require(nrec >= 1, "disk_io_counters: no per-line record generator found")
     m = repo.mod("_pslinux")
     ss = m.assigns.get("DISK_SECTOR_SIZE", [])
     if len(ss) == 1 and isinstance(ss[0], ast.Constant) and ss[0].value == 512:
@@ -279,9 +309,25 @@ def run(ctx):
                  "is_storage_device(name)): totals would double count, or per-disk "
                  "output would lose partitions")
     fcfg = A.cfg(df)
+    # every return reached with an empty table answers {} when perdisk, None otherwise
+    def empty_answer(v, per):
+        if isinstance(v, ast.IfExp) and dotted(v.test) == "perdisk":
+            return empty_answer(v.body if per else v.orelse, per)
+        if per:
+            return isinstance(v, ast.Dict) and not v.keys
+        return v is None or (isinstance(v, ast.Constant) and v.value is None)
     emp = [n for n in fcfg.nodes if n.kind == "return"
-           and norm_stmt(n.stmt.value).replace(" ", "") == "{}ifperdiskelseNone"]
-    ge = emp and all(("truthy", "rawdict", False) in facts(fcfg, n) for n in emp)
+           and ("truthy", "rawdict", False) in facts(fcfg, n)]
+    cases = set()
+    ge = bool(emp)
+    for n in emp:
+        fs = facts(fcfg, n)
+        for per in (True, False):
+            if ("truthy", "perdisk", not per) in fs:
+                continue            # this return is not reached with that value of perdisk
+            cases.add(per)
+            ge = ge and empty_answer(n.stmt.value, per)
+    ge = ge and cases == {True, False}
     if ge:
         ctx.ok("C09.R3", "disk-empty", sample="not rawdict -> {} if perdisk else None")
     else:
@@ -326,6 +372,28 @@ def run(ctx):
         ctx.fail("C09.R4", "disk_usage.percent", du.file, du.node.lineno, du.qual,
                  f"percent = {[repr(v)[:140] for v in nz]}; documented used/(used+free)*100 "
                  f"rounded to 1 decimal")
+    # macOS replaces `used` by the native figure (APFS purgeable space): the record
+    # must stay self-consistent - percent is computed from the very `used` it reports
+    Im = Interp(repo, A, plat="macos")
+    tm = Im.call_function(du, [("param", "path")])
+    recm = records(tm)
+    ctx.require(recm, "disk_usage() on macOS: not an sdiskusage record")
+    dm = dict(zip(recm[0][2], recm[0][3]))
+    native_used = collect(dm["used"], lambda x: x and x[0] in ("native", "ext", "call")
+                          and "disk_usage_used" in pretty(x))
+    in_percent = collect(dm["percent"], lambda x: x and x[0] in ("native", "ext", "call")
+                         and "disk_usage_used" in pretty(x))
+    if native_used and in_percent:
+        ctx.ok("C09.R4", "disk_usage.macos-consistent",
+               sample="percent is computed from the corrected `used` that is reported")
+    elif not native_used:
+        ctx.ok("C09.R4", "disk_usage.macos-consistent", nontrivial=False,
+               sample="no macOS-specific correction of `used`")
+    else:
+        ctx.fail("C09.R4", "disk_usage.macos-consistent", du.file, du.node.lineno, du.qual,
+                 f"macOS: the record reports used = `{pretty(dm['used'])[:80]}` but percent = "
+                 f"`{pretty(dm['percent'])[:100]}` is computed from the uncorrected figure: "
+                 f"percent != used/(used+free)*100")
     ctx.assume("column meanings are those of Documentation/admin-guide/iostats.rst and "
                "the /proc/net/dev header; the 15-field (2.4) mapping is not claimed")
     return ("Abstract interpretation of the /proc/net/dev and /proc/diskstats readers "
